@@ -44,3 +44,15 @@ missing = sorted(s for s in allsrc if s not in lines)
 out.append("\nSource files compiled into no harness: " + (", ".join(missing) or "none"))
 open(os.path.join(V, "COVERAGE.md"), "w").write("\n".join(out) + "\n")
 print("\n".join(out[-3:]))
+# uncovered lines with their text, for reading (not committed)
+with open(os.path.join(V, ".work", "cov", "uncovered.txt"), "w") as f:
+    for rel in sorted(lines):
+        try:
+            src = open(os.path.join(REPO, rel), errors="replace").read().split("\n")
+        except OSError:
+            continue
+        un = sorted(l for l, c in lines[rel].items() if c == 0)
+        if un:
+            f.write("== %s\n" % rel)
+            for l in un:
+                f.write("%5d  %s\n" % (l, src[l - 1] if l - 1 < len(src) else ""))
